@@ -1512,6 +1512,13 @@ func (ft *ftrans) applyCallee(c *Callee, recv string, args []ast.Expr, e env, pr
 			continue
 		}
 		v := ft.expr(a, e, pre)
+		if v.t == "nil" {
+			// a nil argument needs the parameter's type ("argtypes") to become a term
+			if i >= len(c.ArgTypes) || c.ArgTypes[i] == "_" {
+				failf("nil as argument %d of %s: the callee table gives no type for it (argtypes)", i, c.Go)
+			}
+			v = ft.coerce(c.ArgTypes[i], v)
+		}
 		if i < len(c.ArgTypes) && c.ArgTypes[i] != "_" && c.ArgTypes[i] != v.t {
 			failf("argument %d of %s has type %q, the callee table asks for %q", i, c.Go, v.t, c.ArgTypes[i])
 		}
